@@ -72,7 +72,8 @@ PROPS = {
               "C02_reference_delivers / C02_reference_eq_model_delivered: in every run of one epoch (no seals) of the executable reference Spec/Lachesis.lean (the oracle of the cons stream) each block carries the Atropos of its frame by the Prop-level rules (C10), its events are exactly the protocol numbers of the ancestors-or-self of that Atropos not reached from an earlier Atropos (ascending), the confirmed mask is the union of these ancestries, "
               "and any finished confirmEvents run of the model on the same DAG from the confirmed set of the earlier blocks delivers exactly those events and leaves the confirmed set of the next block (seals / several epochs not covered). "
               "Correspondence: each block's delivered set and ApplyEvent call count are compared with 'ancestry of the Atropos minus everything delivered before' "
-              "computed by the reference; frames consecutive from 1; Atropos is a root of the frame (reference picks it among roots).",
+              "computed by the reference; frames consecutive from 1; Atropos is a root of the frame (reference picks it among roots)."
+              " Optional callbacks (Model/ApplyAtropos.lean, conditions of applyAtropos/confirmEvents regenerated as Gen.Lachesis): C02_callbacks_irrelevant - with BeginBlock given, the events a block marks confirmed are exactly those of the confirmEvents model whatever callbacks the application returned (ApplyEvent / EndBlock nil or not), ApplyEvent receives exactly the delivered list (nothing when nil), a seal is reported only through a given EndBlock; C02_no_begin_block.",
               props=["LachesisVerif.Props.C02"], level="proof"),
     "C03": _p("Proof: on the implementation-level model of the vector index (Model/Vec.lean, run in lock-step with vecengine/vecfc, kernels regenerated) "
               "the cheater loop of applyAtropos (validators in canonical order filtered by GetMergedHighestBefore(atropos).IsForkDetected) yields, for every "
